@@ -89,8 +89,9 @@ impl TryFrom<(FeelNumber, FeelNumber, FeelNumber)> for FeelDate {
   type Error = DmntkError;
   /// Converts a tuple of numbers into [FeelDate].
   fn try_from(value: (FeelNumber, FeelNumber, FeelNumber)) -> Result<Self, Self::Error> {
-    let year = value.0.into();
-    if value.1 > FeelNumber::zero() && value.2 > FeelNumber::zero() {
+    let in_range = |n: &FeelNumber, min: i32, max: i32| *n >= FeelNumber::from(min) && *n <= FeelNumber::from(max);
+    if in_range(&value.0, -999_999_999, 999_999_999) && in_range(&value.1, 1, 12) && in_range(&value.2, 1, 31) {
+      let year = value.0.into();
       let month = value.1.into();
       let day = value.2.into();
       if is_valid_date(year, month, day) {
